@@ -434,7 +434,9 @@ def encode_chain(mod, t, chain, v, ch):
                 ch.force.pop("indef", None)
         return out
     from .model import STR_KINDS
-    return wrap(chain, constructed, content, ch, is_string=rt.kind in STR_KINDS or rt.kind in ("OCTETSTRING", "BITSTRING"))
+    from .model import OPAQUE_KINDS, TIME_KINDS
+    return wrap(chain, constructed, content, ch,
+                is_string=rt.kind in STR_KINDS or rt.kind in OPAQUE_KINDS or rt.kind in TIME_KINDS or rt.kind == "BITSTRING")
 
 
 def encode(mod, t, v, ch=CANON):
